@@ -18,6 +18,15 @@ structure St where
 def step (st : St) (toks : List String) (impl : String) : St × LineResult :=
   match toks with
   | ["new"] => ({ started := true }, { modelObs := "ok" })
+  | ["stress", _, _, _] =>
+    -- concurrency run (-race build): keys and hashes computed by 8 goroutines must equal the sequential ones
+    if !st.started then (st, { modelObs := "badop" }) else
+    match splitTokens impl with
+    | ["anomalies", a] =>
+      let vs : List (String × String × String) :=
+        if a == "0" then [] else [("fwd-rev", "none", s!"{a} concurrent key/hash computations differ from the sequential ones")]
+      ({ started := false }, { modelObs := "anomalies 0", viols := vs })
+    | _ => ({ started := false }, { modelObs := "anomalies 0" })
   | [kind, h] =>
     if !st.started then (st, { modelObs := "badop" }) else
     match parseHexBytes h with
